@@ -1,6 +1,7 @@
 package main
 
 import (
+	"math/big"
 	"fmt"
 	"math"
 	"reflect"
@@ -297,12 +298,23 @@ func runC18(r *Run) {
 			bf := tg.GenValue(tyBigFloat, 0).Interface()
 			_ = bf
 			val.Field(1).Set(tg.GenValue(reflect.PtrTo(tyBigFloat), 1))
+			if rng.P(1, 2) {
+				// a big float that is the rounded result of an operation: besides mantissa, exponent and
+				// precision it carries an accuracy flag and a rounding mode, which are the caller's too
+				// (seeded change C18A3 reset the accuracy through SetMode)
+				f := new(big.Float).SetPrec(uint([]int{24, 53, 64, 100, 128}[rng.Intn(5)]))
+				f.SetMode([]big.RoundingMode{big.ToNearestEven, big.ToZero, big.AwayFromZero, big.ToNegativeInf}[rng.Intn(4)])
+				f.Quo(big.NewFloat(float64(1+rng.Intn(9))), big.NewFloat([]float64{3, 7, 10, -3, 1e30}[rng.Intn(5)]))
+				val.Field(1).Set(reflect.ValueOf(f))
+			}
 			val.Field(2).Set(tg.GenValue(reflect.PtrTo(tyDecimal), 1))
 		} else {
 			depth := 1 + rng.Intn(3)
 			ty = tg.GenType(depth)
 			val = tg.GenValue(ty, depth)
 		}
+		dumpBigFloatFlags = true
+		defer func() { dumpBigFloatFlags = false }()
 		before := dumpValue(val.Interface())
 		desc := fmt.Sprintf("%s = %s", ty.String(), before)
 		if len(desc) > 1500 {
